@@ -36,9 +36,10 @@ class error_html(object):
         """
         self.errh = errh
         self.fd = fd
-        self.seg_term = term[0]
-        self.ele_term = term[1]
-        self.subele_term = term[2]
+        # The terminators come from the source file: escape them like the element values
+        self.seg_term = escape_html_chars(term[0])
+        self.ele_term = escape_html_chars(term[1])
+        self.subele_term = escape_html_chars(term[2])
         self.eol = ''
         self.last_line = 0
         self.loop_info = None
@@ -138,7 +139,7 @@ class error_html(object):
             self.gen_info(self.loop_info)
         self.loop_info = None
         self.fd.write('<span class="seg">%i:&nbsp;%s</span><br />\n' %
-                      (cur_line, self._seg_str(seg_data.get_seg_id(), t_seg)))
+                      (cur_line, self._seg_str(escape_html_chars(seg_data.get_seg_id()), t_seg)))
         for err_node in err_node_list:
             for err_tuple in err_node.get_error_list(seg_data.get_seg_id(), False):
             #for err_tuple in err_node.errors:
